@@ -295,6 +295,8 @@ class CopyNative(Contract):
                 for extra, name in enumerate(("ID", "Cell", "B", "Transmitter")):
                     obj.add_data({name: {"values": np.arange(n) + 30.5 + extra, "association": assoc}})
                 obj.add_data_to_group([b, a], "orient")  # member order differs from creation order
+                a.entity_type.color_map = np.c_[np.linspace(0.0, 2.0, 4), np.arange(4) * 10, np.arange(4) * 20, np.arange(4) * 30, np.ones(4) * 255]
+                obj.add_data({"ref": {"values": np.array([1, 2, 1, 2][:n], dtype="uint32"), "association": assoc, "type": "referenced", "value_map": {1: "A", 2: "B"}}})
                 obj.metadata = {"info": {"nested": [1, 2, 3]}, "k": "v"}
                 grp = ContainerGroup.create(ws, name="g")
             before_digest = _digest(src_path)
@@ -333,6 +335,18 @@ class CopyNative(Contract):
                     v = getattr(kid, "values", None)
                     if isinstance(v, np.ndarray) and v.dtype.kind == "f" and len(v):
                         v[: max(1, len(v) // 2)] = -999.25
+                # ... nor edits of the maps of the copy's data types (when the copy has types of its own: another workspace)
+                if dst is not None:
+                    for name in ("dip", "ref"):
+                        st, ct = obj.get_data(name)[0].entity_type, new.get_data(name)[0].entity_type
+                        if st.color_map is not None and (ct.color_map is st.color_map or st.color_map.parent is not st):
+                            return f"the colour map of the source's '{name}' type is shared with (or now owned by) the type of the copy ({case})"
+                        if st.value_map is not None:
+                            if ct.value_map is st.value_map:
+                                return f"the value map of the source's '{name}' type is the very object the copy's type holds ({case})"
+                            ct.value_map.map[9] = "edited in the copy"
+                            if 9 in st.value_map.map:
+                                return f"an entry added to the value map of the copy's '{name}' type shows in the source's ({case})"
                 # ... nor edits of the copy's property groups (a member added, a member taken out)
                 for pg in ((new.property_groups or [])[:1] if case.get("pg_edit") else []):
                     outsiders = [k for k in new.children if hasattr(k, "values") and k.uid not in (pg.properties or [])]
@@ -650,7 +664,15 @@ class CopyToParent(Contract):
         attrs = {"name": "source", "metadata": md, "property_groups": PList([Opaque("pg")]), "vertices": Opaque("vertices"), "visible": False}
         if kind == "drillhole":
             attrs["depths"] = Opaque("source-DEPTH-entity")
-        ctx.env["attrs_of"] = lambda e_, base: PDict({**(getattr(base, "items", base) or {}), **attrs}) if e_ is ent else PDict({"name": "type-name", "uid": Opaque("type.uid")})
+        vm = Opaque("source-type.value_map")
+        vm.attrs["map"] = PDict({1: "A", 2: "B"})
+        cm = Opaque("source-type.color_map")
+        cm.attrs["name"] = "map.TBL"
+        cm.attrs["values"] = Opaque("colour-table")
+        ctx.path.assume(~vm.none_var())
+        ctx.path.assume(~cm.none_var())
+        ctx.env.update(vm=vm, cm=cm)
+        ctx.env["attrs_of"] = lambda e_, base: PDict({**(getattr(base, "items", base) or {}), **attrs}) if e_ is ent else PDict({"name": "type-name", "uid": Opaque("type.uid"), "value_map": vm, "color_map": cm})
         tws = Opaque("target-workspace", cls=Workspace)
         ge = Opaque("target.get_entity")
         taken_by = Opaque("someone-else")
@@ -715,6 +737,9 @@ class CopyToParent(Contract):
         deep = deep and isinstance(m.items["info"].items.get("nested"), PList) and m.items["info"].items["nested"] is not e["md"].items["info"].items["nested"] and m.items["info"].items["nested"].items == [1, 2, 3]
         ctx.oblige("metadata-is-a-deep-copy-with-the-same-content", deep, note="the copy's metadata (or a nested part of it) is the very object its source holds: edits of one show in the other")
         ctx.oblige("other-attributes-are-the-sources", ei.get("name") == "source" and ei.get("vertices") is e["attrs"]["vertices"])
+        ti = tk.items
+        ctx.oblige("the-new-type-gets-maps-of-its-own", ti.get("value_map") is not e["vm"] and ti.get("color_map") is not e["cm"] and ti.get("value_map") is not e["vm"].attrs["map"],
+                   note="the value map / colour map object of the source's type is handed to the type of the copy: a map records its owner, and edits of one type's map show in the other")
         ctx.oblige("keyword-overrides-replace-existing-attributes-only", ei.get("visible") is True and "not_an_attribute" not in ei and "clear_cache" not in ei)
         omits = [p for k, p in ev if k == "get_attributes" and p["entity"] is e["ent"]]
         ctx.oblige("identity-fields-are-left-out-of-the-attribute-collection", len(omits) == 1 and {"_uid", "_entity_type", "_on_file"} <= set(omits[0]["omit"]),
